@@ -75,7 +75,9 @@ class DeepAssignation:
             ):
                 pos = 0
                 for name in target.elts:
-                    if name.id == self.var_name.id:
+                    if getattr(name, "id", None) == self.var_name.id and pos < len(
+                        node.value.elts
+                    ):
                         assigned = node.value.elts[pos]
                         break
                     pos += 1
